@@ -3820,9 +3820,10 @@ def find_module_and_diagnose(
                 else:
                     skipping_module(manager, caller_line, caller_state, id, result)
             reason = SuppressionReason.SKIPPED
-            if options.ignore_missing_imports:
+            if options.ignore_missing_imports and follow_imports != "error":
                 # Performance optimization: when we are ignoring imports, there is no
-                # difference for the caller between skipped import and actually missing one.
+                # difference for the caller between skipped import and actually missing one
+                # (except in 'error' mode, where a skipped import is reported).
                 reason = SuppressionReason.NOT_FOUND
             raise ModuleNotFound(reason=reason)
         if is_silent_import_module(manager, result) and not root_source:
